@@ -309,6 +309,21 @@ func (l *Live) Logon(hb int) bool {
 	return ok
 }
 
+// Relogon ends the current logon with a Logout exchange started by the peer and logs on again on the
+// same session (accepting side only: an accepting session waits for the next Logon after a Logout).
+func (l *Live) Relogon(hb int) bool {
+	if l.Cfg.Role != "A" {
+		return false
+	}
+	_ = l.Send(l.PeerMsg("5", ""))
+	if _, ok := l.WaitType("5", 2*time.Second); !ok {
+		return false
+	}
+	_ = l.Send(l.PeerMsg("A", "98=0\x01108="+strconv.Itoa(hb)+"\x01"))
+	_, ok := l.WaitType("A", 2*time.Second)
+	return ok
+}
+
 func (l *Live) WaitType(mt string, d time.Duration) (Msg, bool) {
 	deadline := time.After(d)
 	for {
